@@ -586,6 +586,7 @@ pub fn run(ctx: Ctx) -> ! {
         let execs = executors();
         let mut cases = 0u64;
         let mut ok = 0u64;
+        let mut nonempty = 0u64;
         let multi_block = n > 128 || m > 64;
         let thread_cfgs: &[usize] = if multi_block { &[1, 4] } else { &[1] };
         for &threads in thread_cfgs {
@@ -603,6 +604,9 @@ pub fn run(ctx: Ctx) -> ! {
                         let c = Case { kernel: exec.kernel_name().to_string(), threads, entry: "gemm", m, k, n, a_lay, b_lay, a_packed: false, b_form: "unpacked", alpha: 1.0, beta: 0.0, bias: Bias::None };
                         let o = pool.run(|| run_case(exec, &c, &s));
                         cases += 1;
+                        if m * k * n > 0 {
+                            nonempty += 1;
+                        }
                         if report(&ctx, &c, o) {
                             ok += 1;
                         }
@@ -613,8 +617,9 @@ pub fn run(ctx: Ctx) -> ! {
         if si % 401 == 0 {
             samples.push(|| json!({"shape_mkn": [m, k, n], "cases": cases, "correct": ok, "ref_sample_S[0]": s.first()}));
         }
-        (cases, ok)
+        (cases, ok, nonempty)
     });
+    let box1_nonempty: u64 = per_shape.iter().map(|x| x.2).sum();
     let box1_cases: u64 = per_shape.iter().map(|x| x.0).sum();
     let box1_ok: u64 = per_shape.iter().map(|x| x.1).sum();
     eprintln!("C16 box1 shapes={} cases={} ok={} t={:.1}s", shape_list.len(), box1_cases, box1_ok, ctx.elapsed_s());
@@ -746,8 +751,8 @@ pub fn run(ctx: Ctx) -> ! {
     println!("C16 summary: kernels={:?} cases={} correct={} (box1 {} box2 {} im2col {} batched {} history {})", kernel_names, total, total_ok, box1_cases, box2_cases, c3.cases, c4.cases, hist_cases);
     let coverage = json!({
         "evaluations": total,
-        "distinct_nontrivial": total_ok,
-        "rule": "box1: every (m,n,k) of the size lists x every kernel x A,B layouts (all 16 combinations while m*k*n <= limit, 4 diagonal combinations above) x {1 thread, 4 threads for multi-block shapes}; box2: 64-80 shapes x alpha x beta x bias x {gemm,gemm_uninit} x A/B {unpacked,prepacked} (+ all B layouts on the gemv path); im2col geometries; batched incl. mismatched members; 3 history orders per kernel on one thread",
+        "distinct_nontrivial": total_ok.saturating_sub(box1_cases - box1_nonempty),
+        "rule": "cases are distinct by construction; non-trivial = correct cases minus the box-1 cases with an empty product (m, n or k = 0); box1: every (m,n,k) of the size lists x every kernel x A,B layouts (all 16 combinations while m*k*n <= limit, 4 diagonal combinations above) x {1 thread, 4 threads for multi-block shapes}; box2: 64-80 shapes x alpha x beta x bias x {gemm,gemm_uninit} x A/B {unpacked,prepacked} (+ all B layouts on the gemv path); im2col geometries; batched incl. mismatched members; 3 history orders per kernel on one thread",
         "exhaustive": true,
         "axes": {
             "kernels": kernel_names,
